@@ -173,3 +173,4 @@ Fixpoint spec_trace_from (sp : spstate N) (h : list (op N)) : list obs :=
   | o :: r => let sp' := sp_step sp o in expected sp' :: spec_trace_from sp' r
   end.
 Definition spec_dump (h : list (op N)) : list N := flat_map enc_obs (spec_trace_from sp_init h).
+Definition spec_dump_last (h : list (op N)) : list N := enc_obs (expected (spec_run h)).
